@@ -29,6 +29,8 @@ func init() {
 			optionsCompose(r)
 			kvSingleLiveVersion(r)
 			kvLookupCoversAllTables(r)
+			compactionShape(r)
+			c02DeletePropagates(r)
 		},
 	})
 }
